@@ -619,7 +619,7 @@ func (exec *Executor) executeDecimalMethod(
 		if ch == '.' {
 			break
 		}
-		if '1' <= ch && ch <= '9' {
+		if '1' <= ch && ch <= '9' || (ch == '0' && count > 0) {
 			count++
 		}
 	}
